@@ -52,4 +52,121 @@ theorem xtsSteal_aligned (f : Bytes → Bytes) (d : Bool) (t0 m : Bytes) (h : m.
     xtsSteal f d t0 m = xtsAux f (m.length / 16) t0 m := by
   simp [xtsSteal, h]
 
+/-! ### ciphertext stealing round trip -/
+
+theorem xtsAux_prefix (f : Bytes → Bytes) : ∀ (n : Nat) (t a b : Bytes), a.length = 16 * n →
+    xtsAux f n t (a ++ b) = xtsAux f n t a
+  | 0, _, _, _, _ => rfl
+  | n + 1, t, a, b, h => by
+    have h16 : 16 ≤ a.length := by omega
+    simp only [xtsAux]
+    rw [List.take_append_of_le_length h16, List.drop_append_of_le_length h16,
+      xtsAux_prefix f n _ (a.drop 16) b (by simp; omega)]
+
+theorem xtsTweakAt_length (t0 : Bytes) (h : t0.length = 16) : ∀ n, (xtsTweakAt t0 n).length = 16
+  | 0 => h
+  | n + 1 => gfDouble_length _
+
+theorem xtsBlock_length {f : Bytes → Bytes} (hf : ∀ b, (f b).length = 16) (t b : Bytes) (ht : t.length = 16) :
+    (xtsBlock f t b).length = 16 := by simp [xtsBlock, hf, ht]
+
+theorem xtsBlock_inv {f g : Bytes → Bytes} (hgf : ∀ b, b.length = 16 → g (f b) = b) (hf : ∀ b, (f b).length = 16)
+    (t b : Bytes) (ht : t.length = 16) (hb : b.length = 16) : xtsBlock g t (xtsBlock f t b) = b := by
+  have hx : (xorBytes b t).length = 16 := by simp [hb, ht]
+  unfold xtsBlock
+  rw [xorBytes_cancel_eq _ _ (by rw [hf, ht]), hgf _ hx, xorBytes_cancel_eq _ _ (by rw [hb, ht])]
+
+/-- XTS with ciphertext stealing: decrypting an encryption returns the data, for every data unit of at least one block -/
+theorem xtsSteal_inv {f g : Bytes → Bytes} (hgf : ∀ b, b.length = 16 → g (f b) = b) (hf : ∀ b, (f b).length = 16)
+    (t0 m : Bytes) (ht : t0.length = 16) (hm : 16 ≤ m.length) :
+    (xtsSteal f false t0 m).length = m.length ∧ xtsSteal g true t0 (xtsSteal f false t0 m) = m := by
+  by_cases hr : m.length % 16 = 0
+  · have hl : (xtsAux f (m.length / 16) t0 m).length = m.length := by
+      rw [xtsAux_length hf _ _ _ ht]; omega
+    rw [xtsSteal_aligned _ _ _ _ hr]
+    refine ⟨hl, ?_⟩
+    rw [xtsSteal_aligned _ _ _ _ (by rw [hl]; exact hr), hl]
+    exact xtsAux_inv hgf hf _ _ _ ht (by omega)
+  · -- notation
+    have hn : 1 ≤ m.length / 16 := by omega
+    have hrl : m.length % 16 < 16 := Nat.mod_lt _ (by omega)
+    have hdm := Nat.div_add_mod m.length 16
+    have htA := xtsTweakAt_length t0 ht (m.length / 16 - 1)
+    have htB : (gfDouble (xtsTweakAt t0 (m.length / 16 - 1))).length = 16 := gfDouble_length _
+    -- the pieces of the plaintext
+    have hpre : (m.take (16 * (m.length / 16 - 1))).length = 16 * (m.length / 16 - 1) := by simp; omega
+    have hlast : ((m.drop (16 * (m.length / 16 - 1))).take 16).length = 16 := by simp; omega
+    have htail : (m.drop (16 * (m.length / 16))).length = m.length % 16 := by simp; omega
+    have hsplit : m = m.take (16 * (m.length / 16 - 1)) ++ ((m.drop (16 * (m.length / 16 - 1))).take 16 ++
+        m.drop (16 * (m.length / 16))) := by
+      have e : 16 * (m.length / 16) = 16 * (m.length / 16 - 1) + 16 := by omega
+      rw [e, ← List.drop_drop, List.take_append_drop, List.take_append_drop]
+    -- the encryption, piece by piece
+    have hcc := xtsBlock_length hf (xtsTweakAt t0 (m.length / 16 - 1)) ((m.drop (16 * (m.length / 16 - 1))).take 16) htA
+    have hpp : (m.drop (16 * (m.length / 16)) ++
+        (xtsBlock f (xtsTweakAt t0 (m.length / 16 - 1)) ((m.drop (16 * (m.length / 16 - 1))).take 16)).drop
+          (m.length % 16)).length = 16 := by
+      rw [List.length_append, htail, List.length_drop, hcc]; omega
+    have hhead : (xtsAux f (m.length / 16 - 1) t0 m).length = 16 * (m.length / 16 - 1) :=
+      xtsAux_length hf _ _ _ ht
+    have hhead' : xtsAux f (m.length / 16 - 1) t0 m = xtsAux f (m.length / 16 - 1) t0 (m.take (16 * (m.length / 16 - 1))) := by
+      have := xtsAux_prefix f (m.length / 16 - 1) t0 (m.take (16 * (m.length / 16 - 1)))
+        (m.drop (16 * (m.length / 16 - 1))) hpre
+      rwa [List.take_append_drop] at this
+    have hC1 := xtsBlock_length hf (gfDouble (xtsTweakAt t0 (m.length / 16 - 1)))
+      (m.drop (16 * (m.length / 16)) ++
+        (xtsBlock f (xtsTweakAt t0 (m.length / 16 - 1)) ((m.drop (16 * (m.length / 16 - 1))).take 16)).drop
+          (m.length % 16)) htB
+    have hC2 : ((xtsBlock f (xtsTweakAt t0 (m.length / 16 - 1)) ((m.drop (16 * (m.length / 16 - 1))).take 16)).take
+        (m.length % 16)).length = m.length % 16 := by
+      rw [List.length_take, hcc]; omega
+    have henc : xtsSteal f false t0 m = xtsAux f (m.length / 16 - 1) t0 m ++
+        xtsBlock f (gfDouble (xtsTweakAt t0 (m.length / 16 - 1))) (m.drop (16 * (m.length / 16)) ++
+          (xtsBlock f (xtsTweakAt t0 (m.length / 16 - 1)) ((m.drop (16 * (m.length / 16 - 1))).take 16)).drop
+            (m.length % 16)) ++
+        (xtsBlock f (xtsTweakAt t0 (m.length / 16 - 1)) ((m.drop (16 * (m.length / 16 - 1))).take 16)).take
+          (m.length % 16) := by
+      simp [xtsSteal, hr]
+    have hlen : (xtsSteal f false t0 m).length = m.length := by
+      rw [henc, List.length_append, List.length_append, hhead, hC1, hC2]; omega
+    refine ⟨hlen, ?_⟩
+    -- the decryption of that
+    generalize hct : xtsSteal f false t0 m = ct at henc hlen
+    have hd1 : ct.length / 16 = m.length / 16 := by rw [hlen]
+    have hd2 : ct.length % 16 = m.length % 16 := by rw [hlen]
+    have hdec : xtsSteal g true t0 ct = xtsAux g (m.length / 16 - 1) t0 ct ++
+        xtsBlock g (xtsTweakAt t0 (m.length / 16 - 1)) (ct.drop (16 * (m.length / 16)) ++
+          (xtsBlock g (gfDouble (xtsTweakAt t0 (m.length / 16 - 1))) ((ct.drop (16 * (m.length / 16 - 1))).take 16)).drop
+            (m.length % 16)) ++
+        (xtsBlock g (gfDouble (xtsTweakAt t0 (m.length / 16 - 1))) ((ct.drop (16 * (m.length / 16 - 1))).take 16)).take
+          (m.length % 16) := by
+      simp [xtsSteal, hd1, hd2, hr]
+    rw [hdec]
+    -- pieces of the ciphertext
+    have e1 : xtsAux g (m.length / 16 - 1) t0 ct = m.take (16 * (m.length / 16 - 1)) := by
+      rw [henc, List.append_assoc, xtsAux_prefix g _ _ _ _ hhead, hhead']
+      exact xtsAux_inv hgf hf _ _ _ ht hpre
+    have e2 : (ct.drop (16 * (m.length / 16 - 1))).take 16 =
+        xtsBlock f (gfDouble (xtsTweakAt t0 (m.length / 16 - 1))) (m.drop (16 * (m.length / 16)) ++
+          (xtsBlock f (xtsTweakAt t0 (m.length / 16 - 1)) ((m.drop (16 * (m.length / 16 - 1))).take 16)).drop
+            (m.length % 16)) := by
+      rw [henc, List.append_assoc, List.drop_left' hhead, List.take_left' hC1]
+    have e3 : ct.drop (16 * (m.length / 16)) =
+        (xtsBlock f (xtsTweakAt t0 (m.length / 16 - 1)) ((m.drop (16 * (m.length / 16 - 1))).take 16)).take
+          (m.length % 16) := by
+      rw [henc]
+      apply List.drop_left'
+      rw [List.length_append, hhead, hC1]; omega
+    rw [e1, e2, e3, xtsBlock_inv hgf hf _ _ htB hpp]
+    have e4 : (m.drop (16 * (m.length / 16)) ++
+        (xtsBlock f (xtsTweakAt t0 (m.length / 16 - 1)) ((m.drop (16 * (m.length / 16 - 1))).take 16)).drop
+          (m.length % 16)).drop (m.length % 16) =
+        (xtsBlock f (xtsTweakAt t0 (m.length / 16 - 1)) ((m.drop (16 * (m.length / 16 - 1))).take 16)).drop
+          (m.length % 16) := List.drop_left' htail
+    have e5 : (m.drop (16 * (m.length / 16)) ++
+        (xtsBlock f (xtsTweakAt t0 (m.length / 16 - 1)) ((m.drop (16 * (m.length / 16 - 1))).take 16)).drop
+          (m.length % 16)).take (m.length % 16) = m.drop (16 * (m.length / 16)) := List.take_left' htail
+    rw [e4, e5, List.take_append_drop, xtsBlock_inv hgf hf _ _ htA hlast, List.append_assoc]
+    exact hsplit.symm
+
 end SpsdkVerif.SymWrappers
